@@ -85,7 +85,8 @@ SAFE = {
 
 SAFE_PATTERNS = [
     # derived / primitive comparisons of core types: total (the element comparisons are primitive or crate functions inventoried on their own)
-    re.compile(r"<core::(result::Result<T, E>|option::Option<T>) as core::cmp::(Ord|PartialOrd|PartialEq)>::(cmp|partial_cmp|eq|ne|lt|le|gt|ge)"),
+    re.compile(r"<core::(result::Result<T, E>|option::Option<T>|cmp::Reverse<T>) as core::cmp::(Ord|PartialOrd|PartialEq)>::(cmp|partial_cmp|eq|ne|lt|le|gt|ge)"),
+    re.compile(r"core::cmp::Reverse"),
     re.compile(r"core::slice::iter::<impl core::iter::IntoIterator for &(mut )?\[T\]>::into_iter"),   # = slice.iter(): pure
 
     re.compile(r"core::num::<impl [iu](8|16|32|64|128|size)>::wrapping_(add|sub|neg|mul|shl|shr)"),
